@@ -131,11 +131,17 @@ class FakeSocket:
             raise BrokenPipeError(errno.EPIPE, "Broken pipe")
         if c.state == "closed" or c.eof and c.reset_on_write:
             raise BrokenPipeError(errno.EPIPE, "Broken pipe")
+        if c.tx_full_until > rt.now:
+            raise BlockingIOError(errno.EAGAIN, "Resource temporarily unavailable")
         n = len(data)
         if n > 1 and self.net.partial_writes:
             # environment answer: how many bytes the kernel accepts (default: all)
             opt = rt.env_choice("env.write", str(n), ["all", "1-byte", "all-but-1"])
             n = (n, 1, n - 1)[opt]
+            if opt:
+                # a short write means the kernel's buffer is full: the socket is not writable again until
+                # the peer has drained it (Linux semantics; DRAIN virtual seconds later)
+                c.tx_full_until = rt.now + DRAIN
         elif n and self.net.max_write is not None:
             n = max(1, min(n, self.net.max_write(c, n)))
         c.outbox += data[:n]
@@ -188,10 +194,14 @@ class FakeSocket:
         if self.closed or self.listening:
             return False
         c = self.conn
+        if c is not None and c.tx_full_until > shims.current().now:
+            return False
         return c is not None and c.state in ("established", "refused")
 
 
 Conn.reset_on_write = False
+Conn.tx_full_until = -1.0
+DRAIN = 0.5
 
 
 class FakeSelector:
@@ -251,8 +261,17 @@ class FakeSelector:
             return ready
         if timeout is not None and timeout <= 0:
             return []
-        rt.block("sel.select", "", pred=lambda: bool(self._ready()), timeout=timeout)
-        return self._ready()
+        deadline = None if timeout is None else rt.now + timeout
+        while True:
+            t = None if deadline is None else deadline - rt.now
+            drains = [sock.conn.tx_full_until - rt.now for sock, key in self._map.items()
+                      if key.events & EVENT_WRITE and sock.conn is not None and sock.conn.tx_full_until > rt.now]
+            if drains:
+                t = min(drains) if t is None else min(t, min(drains))
+            rt.block("sel.select", "", pred=lambda: bool(self._ready()), timeout=t)
+            ready = self._ready()
+            if ready or self.closed or (deadline is not None and rt.now >= deadline) or (t is None):
+                return ready
 
 
 def make_selectors():
